@@ -66,17 +66,19 @@ func (f *FileEnt) link_child(name string, c *FileEnt) error {
 }
 
 // Opposite of link_child
+// Removes the link name -> c.  If name is absent or has meanwhile
+// been linked to a different entry, nothing is removed.
 // Caller is responsible for calling c.decref *after* this
 // routine returns successfully (error == nil).
-func (f *FileEnt) unlink_child(name string) error {
+func (f *FileEnt) unlink_child(name string, c *FileEnt) error {
 	if f.children == nil {
 		return errors.New("not a directory.")
 	}
 
 	f.Lock()
 	defer f.Unlock()
-	_, found := f.children[name]
-	if !found {
+	cur, found := f.children[name]
+	if !found || cur != c {
 		return errors.New("not found")
 	}
 	delete(f.children, name)
